@@ -203,10 +203,12 @@ pub fn enumerate(spec: &DistSpec, seed: u64) -> Result<ExactResult, String> {
             // and in the subnormal range the spacing is coarser (underflow): there the
             // atom legitimately collects the mass of every ideal value that rounds to it,
             // so the actual spacing is used as that atom's resolution.
-            if (y.abs() as f64) < 2.0 * f32::MIN_POSITIVE as f64 {
-                let up = f32::from_bits(if y >= 0.0 { y.to_bits() + 1 } else if y.to_bits() == 0x8000_0000 { 1 } else { y.to_bits() - 1 });
-                let dn = f32::from_bits(if y > 0.0 { y.to_bits() - 1 } else if y == 0.0 { 0x8000_0001 } else { y.to_bits() + 1 });
-                let res = cdf_xf(spec, up as f64).0 - cdf_xf(spec, dn as f64).0;
+            // Same underflow-zone rule as the law engine: below 2^10 * MIN_POSITIVE (times
+            // the scale the family multiplies last) the standardised variate itself
+            // underflows, so atoms in the zone jointly carry the zone's mass.
+            let zone = 1024.0 * f32::MIN_POSITIVE as f64 * super::law::zone_scale_of(spec);
+            if (y.abs() as f64) < zone {
+                let res = cdf_xf(spec, zone).0 - cdf_xf(spec, -zone).0;
                 dd = (dd - res.abs()).max(0.0);
             }
             if dd > d {
